@@ -1,5 +1,6 @@
 """C14 - authentication responses are exactly what a conforming server verifies."""
 import random
+import struct
 
 import common
 
@@ -238,6 +239,8 @@ def run(tier, seed, model):
         if mreply != reply:
             camp.model_mismatches.append({"property": "C14", "case": {"ard": i},
                                           "what": f"ARD case {i}: model reply differs from the client's (key {key.hex()[:16]} vs {reply[128:].hex()[:16]})"})
+    if not camp.oracle_failures:
+        several_factories(camp, rng, 40 if tier == "quick" else 1500)
     camp.rule = ("FIPS 46-3 DES of the spec vs Cryptodome on 10 known-answer vectors and random key/data pairs; VNC authentication: "
                  "sendPassword on a real RFBClient for ASCII passwords of length 0..40 (incl. NUL, DEL, >8 characters) x challenges "
                  "(random, all-zero, 0x00/0xFF mixes): response == spec DES-ECB under the statement's key, 16 bytes, and an "
@@ -247,7 +250,86 @@ def run(tier, seed, model):
     return camp
 
 
+def several_factories(camp, rng, n):
+    """whole handshakes on real VNCDoToolClient connections: several factories (api.connect twice, as in api.py's example) are
+    configured first, then their servers ask; each connection answers with ITS factory's credentials - and one without a
+    password gives up instead of answering"""
+    from vncdotool import client as vclient
+    for i in range(n):
+        k = rng.randrange(2, 5)
+        conns = []
+        for j in range(k):
+            f = vclient.VNCDoToolFactory()
+            pw = rng.choice([None, gen_password(rng), gen_password(rng), "secret%d" % j])
+            user = rng.choice([None, "user%d" % j, "admin"])
+            if pw is not None:
+                f.password = pw
+            if user is not None:
+                f.username = user
+            failed = []
+            f.clientConnectionFailed = lambda c, reason, failed=failed: failed.append(reason)
+            ard = rng.random() < 0.4 and pw is not None and user is not None
+            conns.append({"f": f, "pw": pw, "user": user, "failed": failed, "ard": ard})
+        order = list(range(k))
+        rng.shuffle(order)
+        for j in order:                        # the servers answer in another order than the factories were configured
+            cn = conns[j]
+            c = vclient.VNCDoToolClient()
+            c.factory = cn["f"]
+            tr = StringTransport()
+            c.makeConnection(tr)
+            c.dataReceived(b"RFB 003.008\n")
+            camp.evaluations += 1
+            camp.nontrivial.add(("factories", i, j, cn["pw"], cn["user"], cn["ard"]))
+            why = None
+            try:
+                if cn["ard"]:
+                    camp.count("several-factories:ard")
+                    c.dataReceived(b"\x01\x1e")
+                    tr.clear()
+                    keylen = rng.choice([8, 16, 32])
+                    m = rng.getrandbits(8 * keylen) | (1 << (8 * keylen - 1)) | 1
+                    a = rng.getrandbits(8 * keylen - 2) | 1
+                    g = rng.choice([2, 3, 5])
+                    c.dataReceived(struct.pack("!HH", g, keylen) + m.to_bytes(keylen, "big") + pow(g, a, m).to_bytes(keylen, "big"))
+                    reply = tr.value()
+                    want = cn["user"].encode().ljust(64, b"\0") + cn["pw"].encode().ljust(64, b"\0")
+                    if len(reply) != 128 + keylen:
+                        why = f"ARD reply of {len(reply)} bytes"
+                    else:
+                        shared = pow(int.from_bytes(reply[128:], "big"), a, m).to_bytes(keylen, "big")
+                        plain = AES.new(MD5.new(shared).digest(), AES.MODE_ECB).decrypt(reply[:128])
+                        if plain != want:
+                            why = (f"the ARD server recovers user {plain[:64].rstrip(bytes(1))!r} / password {plain[64:].rstrip(bytes(1))!r}, this "
+                                   f"connection's factory holds {cn['user']!r} / {cn['pw']!r}")
+                else:
+                    camp.count("several-factories:vnc-auth" if cn["pw"] is not None else "several-factories:no-password")
+                    c.dataReceived(b"\x01\x02")
+                    tr.clear()
+                    chal = bytes(rng.getrandbits(8) for _ in range(16))
+                    c.dataReceived(chal)
+                    reply = tr.value()
+                    if cn["pw"] is None:
+                        if reply or not cn["failed"] or not tr.disconnecting:
+                            why = (f"no password was given to this connection's factory, yet it answered the challenge with {reply.hex()} "
+                                   f"(failure reported: {bool(cn['failed'])}, closed: {tr.disconnecting})")
+                    else:
+                        want = DES.new(spec_key(cn["pw"]), DES.MODE_ECB).encrypt(chal)
+                        if reply != want:
+                            others = [o["pw"] for o in conns if o is not cn and o["pw"] is not None and DES.new(spec_key(o["pw"]), DES.MODE_ECB).encrypt(chal) == reply]
+                            why = (f"response {reply.hex()} is not the DES of the challenge under this factory's password {cn['pw']!r}"
+                                   + (f" but under another factory's password {others[0]!r}" if others else ""))
+            except Exception as e:  # noqa: BLE001
+                why = f"raised {type(e).__name__}: {e}"
+            if why:
+                camp.oracle_failures.append({"kind": "oracle", "property": "C14", "case": {"several_factories": i},
+                                             "what": f"{k} factories configured, then their servers ask (connection {j}): {why}"})
+                return
+
+
 def replay(payload):
+    if "several_factories" in payload.get("case", {}):
+        return True, "replay: several-factories scenario; re-run ./check C14"
     case = payload["case"]
     if "password" in case and "challenge" in case:
         pw = "".join(map(chr, case["password"]))
